@@ -16,6 +16,7 @@ structure DState where
   chain : Chain := []
   store : Store := { mem := fun l => l, table := [] }
   pending : List (Loc × Val) := []   -- redirections collected for the next test body
+  batch : List (String × List (Loc × Val) × String × String) := []   -- tests queued for `runall`
 
 def renderVal (v : Val) : String := if v < 1000 then s!"i{v}" else s!"v{v - 1000}"
 
@@ -45,6 +46,44 @@ def parseRunKind (s : String) : RunKind :=
 def bodyOf (outcome : String) (sets : List (Loc × Val)) : List Stmt :=
   setsOf sets ++ (if outcome == "pass" then [] else [Stmt.stop])
 
+/-- `i:<id>:<name>` / `r:<name>` / `-` -/
+def parseMut (flags : List (Nat × Bool)) (ws : List String) : Mut :=
+  match ws with
+  | ["i", id, name] =>
+    match id.toNat? with
+    | some id =>
+      let en := match flags.find? (·.1 == id) with
+        | some (_, b) => b
+        | none => true
+      .install { id := id, name := name, enabled := en, kind := if id ≥ 20 then .failingPre else .recording }
+    | none => .none
+  | ["r", name] => .remove name
+  | _ => .none
+
+def parseScripted (flags : List (Nat × Bool)) (outcome : String) (sets : List (Loc × Val)) (bm pm : String) : ScriptedTest :=
+  let body := bodyOf outcome sets
+  -- the body ends (FAIL, exception) only after its change of the chain
+  match pm.splitOn ":" with
+  | actor :: rest =>
+    { body := body, bodyMut := parseMut flags (bm.splitOn ":"), postActor := actor.toNat?.getD 0,
+      postMut := if pm == "-" then .none else parseMut flags rest }
+  | [] => { body := body, bodyMut := parseMut flags (bm.splitOn ":"), postActor := 0, postMut := .none }
+
+def notSet (c : Chain) : Chain := c.filter (·.kind != .setPointer)
+
+/-- the registry loop, with the observation lines of every test -/
+def runBatch (flags : List (Nat × Bool)) (c : Chain) (s : Store) (k : Nat) :
+    List (String × List (Loc × Val) × String × String) → List String × Chain × Store
+  | [] => ([], c, s)
+  | (outcome, sets, bm, pm) :: rest =>
+    let t := parseScripted flags outcome sets bm pm
+    let r := runScripted c s t
+    let pc := postChainAfterBody c (effectiveBodyMut s t)
+    let lines := [namesLine s!"t{k} pre" (runAllPre (notSet c)), namesLine s!"t{k} post" (runAllPost (notSet pc)),
+                  s!"t{k} done {r.1.done}"]
+    let more := runBatch flags r.2 r.1.store (k + 1) rest
+    (lines ++ more.1, more.2)
+
 def modelStep (d : DState) (op : List String) (_obs : List (List String)) : DState × List String :=
   match op with
   | ["skip"] => (d, [])
@@ -67,6 +106,11 @@ def modelStep (d : DState) (op : List String) (_obs : List (List String)) : DSta
     match l.toNat?, v.toNat? with
     | some l, some v => ({ d with pending := d.pending ++ [(l, 1000 + v)] }, [])
     | _, _ => (d, ["bad-op"])
+  | ["test", outcome, bm, pm] =>
+    ({ d with batch := d.batch ++ [(outcome, d.pending, bm, pm)], pending := [] }, [])
+  | ["runall"] =>
+    let r := runBatch d.flags d.chain d.store 0 d.batch
+    ({ d with chain := r.2.1, store := r.2.2, batch := [] }, r.1 ++ chainLines r.2.1 ++ [renderMem r.2.2.mem])
   | ["run", outcome, kind] =>
     let ss := d.pending
     let k := parseRunKind kind
@@ -114,6 +158,7 @@ structure Shadow where
   now       : List String := (List.range nLocs).map (fun l => s!"i{l}")   -- pointer values after the last test
   pending   : Nat := 0                     -- redirections recorded and not yet undone
   script    : Nat := 0                     -- redirections collected for the next test body
+  queue     : List (Nat × String × String) := []   -- queued tests: redirections, body change, post-action change
 
 def obsLine (tag : String) (obs : List (List String)) : Option (List String) :=
   (obs.find? (fun l => l.head? == some tag)).map (·.drop 1)
@@ -146,6 +191,71 @@ def checkChain (sh : Shadow) (o : Proto.Op) : Except String Unit := do
   if dashList got != sh.chainWords then
     throw s!"chain is {dashList got}, expected {sh.chainWords} (most recently installed first)"
   checkRegistryView sh o
+
+def obsLine2 (t tag : String) (obs : List (List String)) : Option (List String) :=
+  (obs.find? (fun l => l.take 2 == [t, tag])).map (·.drop 2)
+
+/-- a change of the chain as the shadow sees it -/
+def Shadow.change (sh : Shadow) (ws : List String) : Shadow :=
+  match ws with
+  | ["i", id, name] =>
+    match id.toNat? with
+    | some id =>
+      -- (the scripted tests install only objects that are not installed at that moment)
+      if sh.installed.any (·.id == id) then sh
+      else { sh with installed := { id := id, name := name, isSet := false, failsPre := id ≥ 20 } :: sh.installed }
+    | none => sh
+  | ["r", name] => { sh with installed := sh.installed.filter (·.name != name) }
+  | _ => sh
+
+/-- One `TestRegistry::runAllTests` over the queued tests.  Demanded of test k:
+    * its pre actions are seen by exactly the enabled plugins installed WHEN IT STARTS, most recently
+      installed first — so a plugin installed during an earlier test of the run is there, one removed
+      during an earlier test is not;
+    * its post actions are the exact reverse of its pre actions, except that a plugin which the test
+      itself removed by name may be missing (the code: the head of the chain still sees it, any other
+      does not); a plugin installed during the test sees neither;
+    * the table limit and the restore clause as for single tests (the pointers are observed after the run). -/
+def specBatch (sh : Shadow) (o : Proto.Op) : Except String Shadow := do
+  let mut sh := sh
+  let mut k := 0
+  for (nsets, bm, pm) in sh.queue do
+    let t := s!"t{k}"
+    let some pre := obsLine2 t "pre" o.obs | throw s!"no pre log of test {k}"
+    let some post := obsLine2 t "post" o.obs | throw s!"no post log of test {k}"
+    let some [done] := obsLine2 t "done" o.obs | throw s!"no done count of test {k}"
+    let some done := done.toNat? | throw "bad done count"
+    let want := sh.enabledNames
+    if dashList pre != want then
+      throw s!"test {k} of the run: pre actions seen by {dashList pre}, installed and enabled when it started are {want}"
+    let room := Gen.Plugins.maxSet - sh.pending
+    let overflow := nsets > room
+    if done != (if overflow then room else nsets) then throw s!"test {k} of the run: {done} redirections carried out, {nsets} requested, room {room}"
+    -- the body's change happens after the redirections (not at all if one of them was refused)
+    let bmw := if overflow then ["-"] else bm.splitOn ":"
+    let removedName := match bmw with | ["r", name] => some name | _ => none
+    let wantPost := want.reverse
+    let wantPostWithout := (want.filter (fun n => some n != removedName)).reverse
+    if dashList post != wantPost && dashList post != wantPostWithout then
+      throw s!"test {k} of the run: post actions seen by {dashList post}, expected {wantPost} (reverse of pre; the plugin the test removed may be missing)"
+    -- who saw the post action decides about restoring and about the post-action change
+    let sawPost (p : SPlugin) : Bool := !sh.disabled.contains p.id &&
+      (if p.isSet then (some p.name != removedName || sh.installed.head?.map (·.id) == some p.id)
+       else (dashList post).contains p.name)
+    let restored := sh.installed.any (fun p => p.isSet && sawPost p)
+    let actorSaw := match pm.splitOn ":" with
+      | actor :: _ => sh.installed.any (fun p => some p.id == actor.toNat? && sawPost p)
+      | [] => false
+    sh := { sh with pending := if restored then 0 else sh.pending + done }
+    sh := sh.change bmw
+    if actorSaw && pm != "-" then sh := sh.change ((pm.splitOn ":").drop 1)
+    k := k + 1
+  checkChain sh o
+  let some mem := obsLine "mem" o.obs | throw "no mem"
+  if sh.pending == 0 && mem != sh.baseline then
+    let bad := (List.range nLocs).filter (fun i => mem[i]? != sh.baseline[i]?)
+    throw s!"after the run pointer {bad.headD 0} (and {bad.length - 1} more) does not hold the value from before the first redirection"
+  return { sh with queue := [], now := mem }
 
 def specStep (sh : Shadow) (o : Proto.Op) : Except String Shadow := do
   match o.op with
@@ -198,6 +308,8 @@ def specStep (sh : Shadow) (o : Proto.Op) : Except String Shadow := do
     -- without an active plugin are never undone, the pointers keep what they hold now
     return { sh with pending := 0, baseline := sh.now }
   | ["set", _, _] => return { sh with script := sh.script + 1 }
+  | ["test", _, bm, pm] => return { sh with queue := sh.queue ++ [(sh.script, bm, pm)], script := 0 }
+  | ["runall"] => specBatch sh o
   | ["run", outcome, kind] =>
     let some pre := obsLine "pre" o.obs | throw "no pre log"
     let some post := obsLine "post" o.obs | throw "no post log"
